@@ -1,3 +1,4 @@
+mod enc;
 mod engine;
 mod gen;
 mod http;
